@@ -24,6 +24,16 @@ func Check05(c CaseHist, r *core.Rec) {
 	changed, rejected := 0, 0
 	prevSetter := -1
 	for i, op := range c.Ops {
+		if op.Kind == "clone" {
+			// the history continues on a Clone (a copy: the model's URL stays what it is)
+			iu = iu.Clone()
+			r.Class("op:clone")
+			if d := DiffObs(ObsOf(iu), mu.Obs()); d != "" {
+				r.Failf("after %s: %s", histString(c, i), d)
+				return
+			}
+			continue
+		}
 		if op.Kind != "set" {
 			continue
 		}
@@ -54,7 +64,7 @@ func Check05(c CaseHist, r *core.Rec) {
 }
 
 func Gen05(t *rapid.T) CaseHist {
-	c := genHistory(t, histOpts{maxOps: 8, start: "setter"})
+	c := genHistory(t, histOpts{maxOps: 8, start: "setter", clone: true})
 	if len(c.Ops) == 0 {
 		c.Ops = append(c.Ops, Op{Kind: "set", Setter: rapid.IntRange(0, spec.NumSetters-1).Draw(t, "setter0"), Value: ""})
 	}
@@ -63,7 +73,7 @@ func Gen05(t *rapid.T) CaseHist {
 
 var P05 = core.Register(core.Prop[CaseHist]{
 	ID: "C05",
-	Rule: "a start URL (WPT hrefs 45% / grammar 35% / structurally extreme starts 20%) followed by 1..8 (setter, value) steps with values from per-setter pools, WPT new_values, other setters' pools, token soup and arbitrary strings; " +
+	Rule: "a start URL (WPT hrefs 45% / grammar 35% / structurally extreme starts 20%) followed by 1..8 (setter, value) steps with values from per-setter pools, WPT new_values, other setters' pools, token soup and arbitrary strings (one step in twelve continues on a Clone of the URL instead, the model's URL staying what it is); " +
 		"oracle: the same step applied to the reference model's setter algorithms, Href + 9 getters compared after every step; " +
 		"non-trivial = at least 2 steps of which at least one changed the model's serialization and at least one was rejected or only partially applied (guard, failure or override-specific early return); distinct by hash of the whole history",
 	Gen:   Gen05,
